@@ -55,6 +55,8 @@ def transform_contract(scope, node):
     (That the real ExpressionTransformer does exactly this is proved in suites/c06.)"""
     if isinstance(node, Opaque):
         return T(scope, node)
+    if isinstance(node, Seg):  # a run of children: transformed child by child, in place
+        return Seg(("T", scope, node.tag), node.length, node.jvar, [transform_contract(scope, i) for i in node.items], node.rev, node.cls_note)
     if isinstance(node, ast.Name) and isinstance(node.ctx, ast.Load):
         return absnode(("load", scope), ("load", scope, node.id), cands=frozenset([ast.Name, ast.Subscript]))
     if isinstance(node, ast.AST):
@@ -64,7 +66,7 @@ def transform_contract(scope, node):
                 continue
             v = getattr(node, f)
             if isinstance(v, list):
-                setattr(new, f, [transform_contract(scope, x) if isinstance(x, (ast.AST, Opaque)) else x for x in v])
+                setattr(new, f, [transform_contract(scope, x) if isinstance(x, (ast.AST, Opaque, Seg)) else x for x in v])
             elif isinstance(v, (ast.expr, Opaque)):
                 setattr(new, f, transform_contract(scope, v))
             else:
@@ -90,7 +92,11 @@ def stub_ol_name():
         n = sum(1 for e in c.trace if e and e[0] == "ol_name")
         c.log("ol_name", fmt)
         # one fresh name per call: inside a generic round the name depends on the round
-        return Hole(("fresh", n, fmt) + tuple(j for (_, j) in c.generic), "ident", fresh=True)
+        h = Hole(("fresh", n, fmt) + tuple(j for (_, j) in c.generic), "ident", fresh=True)
+        if not hasattr(c, "ol_created"):
+            c.ol_created = []
+        c.ol_created.append(h)
+        return h
     return f
 
 
@@ -115,10 +121,27 @@ def mk_nsp(tag="nsp", kinds=("global", "function", "class"), **fields):
     ns = nsmod()
     kmap = {"global": ns.NamespaceGlobal, "function": ns.NamespaceFunction, "class": ns.NamespaceClass}
 
+    def requires_identifier(what, name):
+        """precondition of the namespace contract: the variable name is an identifier (it
+        becomes a walrus target / Name.id / dict key of the emulated scope)"""
+        ok = (isinstance(name, str) and name.isidentifier()) or \
+            (isinstance(name, Hole) and name.kind == "ident" and not name.props.get("dotted") and not name.props.get("star"))
+        if not ok and isinstance(name, Hole) and name.kind == "ident":
+            c_ = ctx()
+            ok = all(c_.valid(z3.Not(name.fact(f)))[0] for f, flag in (("=='*'", "star"), ) if name.props.get(flag))
+            if ok and name.props.get("dotted"):
+                from olvc.tmpl import t_contains
+                b = t_contains(".", name)
+                ok = b is False or (b is not True and c_.valid(z3.Not(b.t))[0])
+        if not ok:
+            ctx().log("requires-failed", what, f"the name argument {name!r} is not provably an identifier")
+
     def get_assign(o, name, value):
+        requires_identifier(f"{tag}.get_assign", name)
         return absnode(("store", tag), ("store", tag, name, value), cands=frozenset([ast.NamedExpr, ast.Call]))
 
     def get_load_name(o, name):
+        requires_identifier(f"{tag}.get_load_name", name)
         return absnode(("load", tag), ("load", tag, name), cands=frozenset([ast.Name, ast.Subscript]))
     f = dict(loop_stack=[], comp_stack=[], inner_nsp=[])
     f.update(fields)
